@@ -459,6 +459,36 @@ impl<'tcx> Cx<'tcx> {
             blocks.push(b);
         }
         o.put("blocks", J::Arr(blocks));
+        // promoted constants: which named constants / values they are made of
+        let mut proms = Vec::new();
+        if let Some(ldid) = did.as_local() {
+            for (pidx, pbody) in tcx.promoted_mir(ldid).iter_enumerated() {
+                let mut po = J::obj();
+                po.put("idx", J::s(&format!("{:?}", pidx)));
+                let mut cs = Vec::new();
+                for data in pbody.basic_blocks.iter() {
+                    for st in data.statements.iter() {
+                        if let StatementKind::Assign(bx) = &st.kind {
+                            let mut ops: Vec<&Operand<'tcx>> = Vec::new();
+                            match &bx.1 {
+                                Rvalue::Use(op, _) => ops.push(op),
+                                Rvalue::Aggregate(_, aops) => ops.extend(aops.iter()),
+                                Rvalue::Cast(_, op, _) => ops.push(op),
+                                _ => {}
+                            }
+                            for op in ops {
+                                if let Operand::Constant(c) = op {
+                                    cs.push(self.constant(pbody, did, &c.const_));
+                                }
+                            }
+                        }
+                    }
+                }
+                po.put("consts", J::Arr(cs));
+                proms.push(po);
+            }
+        }
+        o.put("promoted", J::Arr(proms));
         o
     }
 
@@ -566,6 +596,12 @@ impl<'tcx> Cx<'tcx> {
             }
             _ => {}
         }
+        match ty.peel_refs().kind() {
+            ty::Closure(cdid, _) | ty::Coroutine(cdid, _) => {
+                o.put("closure", J::s(&self.name(*cdid)));
+            }
+            _ => {}
+        }
         if let Const::Unevaluated(uv, _) = c {
             if uv.promoted.is_some() {
                 o.put("promoted", J::s(&format!("{:?}", uv.promoted.unwrap())));
@@ -611,6 +647,9 @@ impl<'tcx> Cx<'tcx> {
                         }
                         _ => {
                             o.put("ptr", J::Bool(true));
+                            if let Some(d) = consts::decode_const_value(self, v, ty, tenv) {
+                                o.put("val", d);
+                            }
                         }
                     }
                 }
